@@ -108,6 +108,7 @@ func cmdCheck(args []string) int {
 	only := fs.String("only", "", "only functions whose key contains this")
 	verbose := fs.Bool("v", false, "verbose")
 	keep := fs.Bool("keep", false, "keep all smt files")
+	list := fs.Bool("list", false, "list every obligation with its status")
 	timeout := fs.Int("timeout", 0, "per-obligation timeout (s)")
 	fs.Parse(args)
 	t0 := time.Now()
@@ -245,6 +246,9 @@ func cmdCheck(args []string) int {
 				continue
 			}
 			nObl++
+			if *list {
+				fmt.Printf("  %-8s %s\n", o.Result.Status, o.Name)
+			}
 			if o.Result.Status == "unsat" {
 				nDis++
 				byBackend[o.Result.Backend]++
